@@ -195,6 +195,8 @@ def gen_group(rng, quick):
 # ---------------------------------------------------------------------------- presentations
 SCALE_K = [10, 16, 20, 24, 26, 28, 30, 32]        # clean tree verified silent up to 2^32 (2^34: qhull round-off)
 DTYPES = ["int64", "int32", "float32", "list", "fortran"]
+OFFSET_K = [10, 20, 24, 26, 28, 30]
+EPS = 2.0 ** -52
 
 
 def gen_presentations(rng, base):
@@ -208,6 +210,11 @@ def gen_presentations(rng, base):
     for _ in range(2):
         k = rng.choice(SCALE_K) * rng.choice([-1, 1])
         out.append(dict(kind="scale", mode=rng.choice(["y", "x", "xy"]), k=k))
+    # positive affine map whose OFFSET dominates the spread of the target: a*y + c with
+    # |c| = 2^k x (power of two >= a x spread); exact in binary64.  Unchanged tree: identical
+    # selection and errors <= 2.2 eps |c| for k <= 32 (k = 34, a = 4: 136 eps |c|)
+    out.append(dict(kind="offset", k=rng.choice(OFFSET_K), a=rng.choice([1.0, 2.0 ** -7, 4.0]),
+                    sign=rng.choice([-1, 1])))
     n = base["n"]
     for _ in range(2):
         frac = [rng.randrange(1, 2 ** 40) if rng.random() < 0.7 else rng.randrange(1, 8) * 2 ** 37
@@ -237,6 +244,31 @@ def check_presentation(base, rec0, pr):
     yq = np.array([yy for _, yy in qrows], dtype=float)
     tol = rec0["tol"]
     try:
+        if pr["kind"] == "offset":
+            ptp = float(np.ptp(ya))
+            if ptp == 0:
+                return None
+            a = pr["a"]
+            c = pr["sign"] * 2.0 ** pr["k"] * 2.0 ** np.ceil(np.log2(a * ptp))
+            y1, yq1 = ya * a + c, yq * a + c
+            if not all(Fraction(v) == Fraction(u) * Fraction(a) + Fraction(c) for u, v in zip(ya, y1)):
+                return None
+            # the query targets may be rounded by the map: expected distances move by the rounding
+            delta = [float(Fraction(v) - (Fraction(u) * Fraction(a) + Fraction(c))) for u, v in zip(yq, yq1)]
+            tolp = a * tol + 4096 * EPS * abs(c)
+            r = _fit_raw(base, Xa, y1, tolp, Xq, yq1)
+            what = "target -> %g * y + %g (offset = 2^%d x spread)" % (a, c, pr["k"])
+            if r["sel"] != rec0["sel"]:
+                return "%s changed the selection %s -> %s" % (what, rec0["sel"], r["sel"])
+            scale = max(1.0, float(np.max(np.abs(np.array(base["P"], dtype=float)))))
+            atol = 64 * EPS * abs(c) + 1e-9 * a * scale
+            for i, (d0, d1) in enumerate(zip(rec0["dist"], r["dist"])):
+                if not abs(d1 - a * d0) <= RTOL * abs(a * d0) + atol:
+                    return "%s: training sample %d has distance %g, expected %g x %g" % (what, i, d1, a, d0)
+            for d0, d1, dl in zip(rec0["qdist"], r["qdist"], delta):
+                if d0 >= -tol and d1 >= -tolp and not abs(d1 - (a * d0 + dl)) <= RTOL * abs(a * d0) + atol:
+                    return "%s: query distance %g, expected %g x %g + %g" % (what, d1, a, d0, dl)
+            return None
         if pr["kind"] == "scale":
             a = 2.0 ** pr["k"] if pr["mode"] in ("y", "xy") else 1.0
             sx = 2.0 ** (-pr["k"]) if pr["mode"] == "x" else (2.0 ** pr["k"] if pr["mode"] == "xy" else 1.0)
@@ -285,12 +317,12 @@ def check_presentation(base, rec0, pr):
 
 
 # ---------------------------------------------------------------------------- large sample sets
-def gen_large_case(rng, d=None):
+def gen_large_case(rng, d=None, nmax=400):
     """n in 201..400, 2 or 3 hull dimensions (beyond the reach of the exact Coq specification):
     checked by the exact contract certificate, the supporting-hyperplane LP oracle on every
     sample, and in Coq by the facet-based verdicts (M) and (D) on a subsample."""
     d = d or rng.choice([2, 2, 3])
-    n = rng.randint(201, 400)
+    n = rng.randint(201, nmax)
     P, corners, raised, kind = H.gen_large(rng, d, n)
     h = rng.randint(0, 2)
     low, nfeat = H.layout(rng, d, h)
@@ -350,6 +382,85 @@ def oracle_large(case, rec):
     return None, None
 
 
+# ---------------------------------------------------------------------------- large query batches
+BATCH_SIZES = [1025, 2047, 3070, 4099]
+
+
+def batch_rows(case):
+    """the rows of ONE large score_samples call, regenerated from the case's seed: positions are
+    dyadic convex combinations of a lower facet's vertices (inside the footprint), targets above /
+    on / below the surface; the last 8 rows are never on the surface.  Returns (rows, y)."""
+    P, d, b = case["P"], case["d"], case["batch"]
+    rs = np.random.RandomState(b["seed"])
+    F = H.exact_lower_hull(P, d)
+    nq = b["nq"]
+    V = np.array([[P[v][1:] for v in S] for S, _ in F], dtype=float)          # (m, d+1, d)
+    C = np.array([c for _, c in F], dtype=float)                              # (m, d+2)
+    f = rs.randint(0, len(F), size=nq)
+    w = rs.multinomial(64, [1.0 / (d + 1)] * (d + 1), size=nq) / 64.0
+    x = np.einsum("qk,qkc->qc", w, V[f])
+    planes = -(C[:, 0][None, :] + x @ C[:, 2:].T) / C[:, 1][None, :]
+    s = planes.max(axis=1)
+    kind = rs.randint(0, 4, size=nq)                                          # 0 above, 1 on, 2/3 below
+    kind[-8:] = rs.choice([0, 2], size=8)
+    off = np.where(kind == 0, rs.randint(1, 41, size=nq) / 4.0, np.where(kind == 1, 0.0, -rs.randint(1, 41, size=nq) / 4.0))
+    yq = s + off
+    hd = rs.randint(-9, 10, size=(nq, case["h"]))
+    high = [c for c in range(case["nfeat"]) if c not in case["low"]]
+    rows = np.zeros((nq, case["nfeat"]))
+    rows[:, case["low"]] = x
+    if high:
+        rows[:, high] = hd
+    return rows, yq, x, hd
+
+
+def gen_batch_case(rng, nq):
+    d = rng.choice([1, 2])
+    n = rng.randint(d + 3, 10)
+    R = 40 if d == 1 else 20
+    ykind = rng.choice(H.YKINDS)
+    P, rej = H.gen_points(rng, d, n, R, ykind, 60)
+    h = rng.randint(0, 2)
+    low, nfeat = H.layout(rng, d, h)
+    case = dict(variant="batch", d=d, n=n, h=h, low=low, nfeat=nfeat, P=P,
+                hd=[[rng.randint(-9, 9) for _ in range(h)] for _ in range(n)],
+                tol=rng.choice([None, 1e-9, 1e-6]), ykind=ykind, rejected=rej, stacked=[],
+                batch=dict(nq=nq, seed=rng.randrange(2 ** 31),
+                           sub=sorted(rng.sample(range(nq - 6), 10)) + list(range(nq - 6, nq))))
+    rows, yq, x, hd = batch_rows(case)
+    case["queries"] = [dict(pos=[float(v) for v in x[j]], y=float(yq[j]), kind="batch", hd=[int(v) for v in hd[j]])
+                       for j in case["batch"]["sub"]]
+    if rng.random() < 0.3:
+        case["history"] = gen_history(rng)
+    return [case]
+
+
+def oracle_batch(case, rec):
+    """every row of the large call against the below/above rule evaluated on the EXACT lower hull
+    of the samples (independent of the fitted equations)."""
+    P, d = case["P"], case["d"]
+    rows, yq, x, _ = batch_rows(case)
+    got = np.asarray(rec["qdist_all"], dtype=float)
+    if got.shape != yq.shape:
+        return "score_samples on %d rows returned shape %s" % (len(yq), got.shape)
+    C = np.array([c for _, c in H.exact_lower_hull(P, d)], dtype=float)
+    dd = yq[:, None] + (C[:, 0][None, :] + x @ C[:, 2:].T) / C[:, 1][None, :]
+    tol = rec["tol"]
+    scale = max(1.0, max(abs(v) for p in P for v in p))
+    below = np.any(dd < -tol, axis=1)
+    exp = np.where(below, np.max(np.where(dd < -tol, dd, -np.inf), axis=1), np.min(dd, axis=1))
+    # only a row that is clearly below through one facet while another facet's distance is within
+    # rounding of -tol depends on the last bits (the repaired rule is continuous at -tol otherwise)
+    edge = (np.min(np.abs(dd + tol), axis=1) < 1e-9 * scale) & np.any(dd < -tol - 1e-9 * scale, axis=1)
+    bad = ~edge & ~(np.abs(got - exp) <= 1e-9 * np.abs(exp) + 1e-9 * scale)
+    rec["batch_rows_compared"] = int(np.sum(~edge))
+    if np.any(bad):
+        j = int(np.where(bad)[0][-1])
+        return ("row %d of ONE score_samples call with %d rows: distance %g, but the query is %g from the surface "
+                "(%d rows disagree)" % (j, len(yq), got[j], exp[j], int(np.sum(bad))))
+    return None
+
+
 def witness_group():
     """the vm_compute witness of Findings/F15_dch_below_mask.v replayed on the implementation:
     V-shaped hull through (x,y) = (-1,1), (0,0), (1,1); the query (1/2, -1/2) is 1 below the
@@ -378,6 +489,14 @@ def case_arrays(case):
 
 def run_impl(case):
     X, y, qrows = case_arrays(case)
+    if case.get("batch"):
+        rows, yq, _, _ = batch_rows(case)
+        rec = H.observe(X, y, case["low"], case["tol"], [(rows[j].tolist(), float(yq[j])) for j in range(len(yq))],
+                        history=case.get("history"))
+        if "error" not in rec:
+            rec["qdist_all"] = rec["qdist"]
+            rec["qdist"] = [rec["qdist_all"][j] for j in case["batch"]["sub"]] if len(rec["qdist_all"]) == len(yq) else []
+        return rec
     return H.observe(X, y, case["low"], case["tol"], qrows, history=case.get("history"),
                      queries_first=case.get("queries_first", False))
 
@@ -432,6 +551,8 @@ def oracle_fit(case, rec):
                 key = KEY_F15 if dist <= 100 * noise else None
                 return ("query %s is %g below the surface but its distance %g is not below -tolerance"
                         % (q, float(-off), dist)), key
+    if case.get("batch"):
+        return oracle_batch(case, rec), None
     return None, None
 
 
@@ -542,15 +663,19 @@ CHECK_NAMES = ["(M) model selection on observed facets", "(S) specification lowe
 
 def run(ctx):
     po = C.proof_obligations(ctx.prop)
-    ngroups = 100 if ctx.quick else 750      # thorough: ~18 min on an idle machine
+    ngroups = 90 if ctx.quick else 750       # thorough: ~18 min on an idle machine
     groups, fits, recs, gid = [], [], [], []
     stats = dict(hull_dims={}, variants={}, ykinds={}, n_hist={}, extra_cols={}, tol={},
                  rejected_degenerate_draws=0, errors=0, queries={}, spec_checked=0, chain_checked=0, distance_points=0, ill_conditioned_queries_skipped=0,
                  max_chain_n=0, train_below_tol_within_noise=0, interp_node_residual=0.0,
                  contract=dict(h1=0.0, h2=0.0, h3=0.0, min_abs_ny=1.0), sfm_model_mismatch=0)
     nlarge = 6 if ctx.quick else 40
-    for g in range(ngroups + nlarge):
-        fs_ = witness_group() if g == 0 else gen_group(ctx.rng, ctx.quick) if g < ngroups else gen_large_case(ctx.rng, 2 + g % 2)
+    nbatch = 4 if ctx.quick else 16
+    for g in range(ngroups + nlarge + nbatch):
+        fs_ = (witness_group() if g == 0 else gen_group(ctx.rng, ctx.quick) if g < ngroups
+               else (gen_large_case(ctx.rng, *((3, 240) if g % 6 == 0 else (2, 400))) if ctx.quick
+                     else gen_large_case(ctx.rng, 2 + g % 2)) if g < ngroups + nlarge
+               else gen_batch_case(ctx.rng, BATCH_SIZES[g % 4]))
         rs_ = [run_impl(c) for c in fs_]
         groups.append((len(fits), len(fs_)))
         for c, r in zip(fs_, rs_):
@@ -682,15 +807,17 @@ def run(ctx):
     stats["distance_points_disagreeing"] = sum(sum(1 for w in v if w.startswith("(D) point")) for v in failed.values())
     # verdicts: search with the oracle wherever something disagrees (and on errors)
     large_idx = [i for i, c in enumerate(fits) if c.get("large")]
-    suspects = set(failed) | {i for i, r in enumerate(recs) if "error" in r} | set(contract_bad) | set(large_idx)
+    batch_idx = [i for i, c in enumerate(fits) if c.get("batch")]
+    suspects = (set(failed) | {i for i, r in enumerate(recs) if "error" in r} | set(contract_bad) | set(large_idx)
+                | set(batch_idx))
     n_search, per_key = 0, {}
     for i in sorted(suspects):
         msg, key = oracle_fit(fits[i], recs[i])
         n_search += 1
-        if not msg and fits[i].get("large") and i not in failed and i not in contract_bad:
+        if not msg and (fits[i].get("large") or fits[i].get("batch")) and i not in failed and i not in contract_bad:
             continue                                   # large sets always go through their oracle
         which = failed.get(i, [])
-        rep = dict(case=fits[i], observed={k: v for k, v in recs[i].items() if k not in ("eq", "simplices")},
+        rep = dict(case=fits[i], observed={k: v for k, v in recs[i].items() if k not in ("eq", "simplices", "qdist_all")},
                    correspondence=which)
         if msg:
             per_key[key] = per_key.get(key, 0) + 1
@@ -710,6 +837,9 @@ def run(ctx):
                             lp_undecided=[recs[i].get("lp_undecided") for i in large_idx],
                             samples_on_a_facet_plane=[(recs[i].get("cert") or {}).get("on_plane") for i in large_idx],
                             exact_certificate_ok=sum(1 for i in large_idx if (recs[i].get("cert") or {}).get("ok")))
+    stats["large_query_batches"] = dict(calls=len(batch_idx), rows=[fits[i]["batch"]["nq"] for i in batch_idx],
+                                        rows_compared_by_oracle=[recs[i].get("batch_rows_compared") for i in batch_idx],
+                                        rows_in_coq_each=16)
     stats["oracle_failures_by_key"] = {str(k): v for k, v in per_key.items()}
     for (s0, k) in groups:
         msg, key = oracle_group(fits[s0:s0 + k], recs[s0:s0 + k])
@@ -722,7 +852,8 @@ def run(ctx):
         if "error" in rb or not b.get("pres"):
             continue
         for pr in b["pres"]:
-            kk = pr["kind"] + ":" + (pr["mode"] if pr["kind"] == "scale" else pr["dtype"])
+            kk = pr["kind"] + ":" + (pr["mode"] if pr["kind"] == "scale" else pr["dtype"] if pr["kind"] == "dtype"
+                                     else "k=%d" % pr["k"])
             npres[kk] = npres.get(kk, 0) + 1
             msg = check_presentation(b, rb, pr)
             if msg:
